@@ -150,7 +150,7 @@ def tetrominoes(room):
     return sorted(tuple(sorted(s)) for s in level)
 
 
-def search(h, w, rooms, limit=LIMIT, max_nodes=0):
+def search(h, w, rooms, limit=LIMIT, max_nodes=0, ignore_shapes=False):
     """All answers (row-major tuples, True = black) for the rooms (lists of (y, x)).
 
     The rooms are visited in breadth-first order of the room adjacency; each gets one of its tetrominoes.  Cut when a
@@ -217,8 +217,8 @@ def search(h, w, rooms, limit=LIMIT, max_nodes=0):
             ok = True
             for c in cells:
                 for d in nb(c):
-                    if d in black and letter[black[d]] == let:
-                        ok = False
+                    if d in black and letter[black[d]] == let and not ignore_shapes:
+                        ok = False  # (ignore_shapes is used only to *select* instances on which this rule decides)
             if not ok:
                 continue
             for c in cells:
@@ -514,6 +514,86 @@ def fat_instances(h, w, level):
     return _LARGE[key]
 
 
+TETRO = {
+    "I": [(0, 0), (0, 1), (0, 2), (0, 3)],
+    "L": [(0, 0), (1, 0), (2, 0), (2, 1)],
+    "T": [(0, 0), (0, 1), (0, 2), (1, 1)],
+    "S": [(0, 1), (0, 2), (1, 0), (1, 1)],
+}
+
+
+def orientations(cells):
+    out = []
+    cur = list(cells)
+    for flip in (False, True):
+        for _ in range(4):
+            cur = [(x, -y) for (y, x) in cur]  # rotate
+            my, mx = min(c[0] for c in cur), min(c[1] for c in cur)
+            norm = sorted((y - my, x - mx) for (y, x) in cur)
+            if norm not in out:
+                out.append(norm)
+        cur = [(y, -x) for (y, x) in cur]
+    return out
+
+
+def forced_pair_instances(h, w, level):
+    """Two rooms that are exactly tetromino-shaped (so their shapes are forced) sharing an edge, every ordered pair of
+    shapes in every orientation, the rest of the board cut into its connected pieces (each at least four cells):
+    the same-shape rule is decided by the two forced rooms alone."""
+    key = ("pairs", h, w, level)
+    if key in _LARGE:
+        return _LARGE[key]
+    found = {}
+    cells = [(y, x) for y in range(h) for x in range(w)]
+    for an, a0 in TETRO.items():
+        for ao in orientations(a0):
+            for (ay, ax) in cells:
+                A = [(ay + y, ax + x) for (y, x) in ao]
+                if any(not (0 <= y < h and 0 <= x < w) for (y, x) in A):
+                    continue
+                for bn, b0 in TETRO.items():
+                    for bo in orientations(b0):
+                        for (by, bx) in cells:
+                            B = [(by + y, bx + x) for (y, x) in bo]
+                            if any(not (0 <= y < h and 0 <= x < w) for (y, x) in B) or set(A) & set(B):
+                                continue
+                            if not any(abs(p[0] - q[0]) + abs(p[1] - q[1]) == 1 for p in A for q in B):
+                                continue
+                            rest = [c for c in cells if c not in A and c not in B]
+                            comps = [sorted(c) for c in base.components(rest)]
+                            if not comps or any(len(c) < 4 for c in comps):
+                                continue
+                            rooms = sorted([sorted(A), sorted(B)] + comps)
+                            found.setdefault((an, bn), [])
+                            if rooms not in found[(an, bn)]:
+                                found[(an, bn)].append(rooms)
+    out = []
+    per = 2 if level == 0 else 12
+    for pair in sorted(found):
+        picked = []
+        if pair[0] == pair[1]:
+            # same forced shape on both sides: prefer layouts on which nothing but the same-shape rule forbids an answer
+            for rooms in found[pair]:
+                if len(picked) >= per:
+                    break
+                try:
+                    if search(h, w, rooms, INST_CAP, NODE_CAP, ignore_shapes=True) and not search(h, w, rooms, INST_CAP, NODE_CAP):
+                        picked.append(rooms)
+                except TooMany:
+                    continue
+        for rooms in picked + spaced(found[pair], per):
+            if rooms in out:
+                continue
+            try:
+                sols = search(h, w, rooms, INST_CAP, NODE_CAP)
+            except TooMany:
+                continue
+            _SOLS[repr([[list(c) for c in r] for r in rooms])] = sols
+            out.append(rooms)
+    _LARGE[key] = [{"height": h, "width": w, "blocks": [[list(c) for c in r] for r in rooms]} for rooms in out]
+    return _LARGE[key]
+
+
 class Lits(base.Rule):
     name = "lits"
 
@@ -525,11 +605,17 @@ class Lits(base.Rule):
         if tier != "quick":
             big = [(4, 4), (5, 5)] + big + [(10, 10), (4, 5), (5, 4), (5, 6), (6, 5), (7, 7), (8, 8), (3, 8), (8, 3), (1, 16), (16, 1), (2, 12), (12, 2), (5, 8), (8, 5)]
         fat = [(4, 5), (5, 4), (5, 5)] if tier == "quick" else [(4, 4), (4, 5), (5, 4), (5, 5), (5, 6), (6, 5), (6, 6), (4, 7), (7, 4)]
-        return s + [("large", h, w, 0 if tier == "quick" else 1) for h, w in big] + [("fat", h, w, 0 if tier == "quick" else 1) for h, w in fat]
+        pairs = [(3, 6), (4, 5)] if tier == "quick" else [(3, 6), (6, 3), (4, 5), (5, 4), (4, 6), (5, 5)]
+        return s + [("large", h, w, 0 if tier == "quick" else 1) for h, w in big] + [("fat", h, w, 0 if tier == "quick" else 1) for h, w in fat] + \
+            [("pairs", h, w, 0 if tier == "quick" else 1) for h, w in pairs]
 
     def instances(self, shape, cap):
         if shape[0] == "large":
             for p in large_instances(shape[1], shape[2], shape[3]):
+                yield p
+            return
+        if shape[0] == "pairs":
+            for p in forced_pair_instances(shape[1], shape[2], shape[3]):
                 yield p
             return
         if shape[0] == "fat":
